@@ -8,10 +8,11 @@
 (* length <= MaxLen appears exactly once as an extension (and <<>> as "s").*)
 (*                                                                         *)
 (* Outcome code (all integers, one JSON array):                            *)
-(*   accepted: <<1, p, i1, sp1, k1, d1, i2, sp2, k2, d2, ...>>             *)
-(*             operands are argv[p..]; option n is specs[i_n], written at  *)
-(*             letter position sp_n (0 = long), its option-argument is     *)
-(*             argv[k_n] from character d_n on (k_n = 0: none)             *)
+(*   accepted: <<1, p, i1, sp1, f1, k1, d1, i2, sp2, f2, k2, d2, ...>>     *)
+(*             operands are argv[p..]; option n is specs[i_n], written in  *)
+(*             argv[f_n] at letter position sp_n (0 = long), its           *)
+(*             option-argument is argv[k_n] from character d_n on          *)
+(*             (k_n = 0: none)                                             *)
 (*   rejected: <<0, at, c1, c2, ...>>  at = index of the offending         *)
 (*             argument, c = codes of the error classes that apply to it   *)
 (***************************************************************************)
@@ -29,7 +30,7 @@ ErrCode(c) == CASE c = "UnknownShort" -> 1 [] c = "UnknownLong" -> 2
 
 RECURSIVE FlatOpts(_)
 FlatOpts(opts) == IF opts = <<>> THEN <<>>
-                  ELSE <<opts[1].i, opts[1].sp, opts[1].k, opts[1].d>> \o FlatOpts(Tail(opts))
+                  ELSE <<opts[1].i, opts[1].sp, opts[1].f, opts[1].k, opts[1].d>> \o FlatOpts(Tail(opts))
 
 RECURSIVE SetToSeq(_)
 SetToSeq(S) == IF S = {} THEN <<>>
